@@ -1,4 +1,4 @@
-\* C17 document layer, closed (quick): 2 header kinds x every history of <= 3 add_* calls over the four
+\* C17 document layer, closed (quick): the full header x every history of <= 3 add_* calls over the four
 \* context paragraphs and at most one focus paragraph (3 patterns, copyright texts of <= 2 lines x
 \* license texts of <= 2 lines over E I ID P)
 CONSTANTS
@@ -6,7 +6,7 @@ CONSTANTS
   Alphabet = {}
   MaxLen = 0
   MaxParas = 3
-  HdrKinds = {"contact1", "full"}
+  HdrKinds = {"full"}
   BigPats = {3}
   CopyMax = 2
   CopyAlpha = {"I"}
